@@ -74,8 +74,13 @@ def typestate(body, init, step, edge=None, cut_edges=(), on_cut=None, record=Fal
     res = TSResult(body)
     work = deque()
     seen = set()
+    # A body into which a new helper was expanded (engine/utpsa/inline.py) contains joins that the source never had: the helper's
+    # `return Err(..)` and `Ok(..)` meet before the caller's `?` looks at the result.  In such bodies every user state is paired with what is
+    # known about the variant held by Result / Option / ControlFlow locals, and switch edges that contradict it are pruned, so that the walk
+    # follows the same paths as in the un-extracted code.  Bodies of the reviewed tree are walked exactly as before.
+    vt = _VariantFacts(body) if _has_splice(body) else None
     for s in init:
-        key = (start_bb, s)
+        key = (start_bb, (s, frozenset()) if vt else s)
         seen.add(key)
         res.parent[key] = None
         work.append(key)
@@ -87,16 +92,19 @@ def typestate(body, init, step, edge=None, cut_edges=(), on_cut=None, record=Fal
         states = {s0}
         for it in blk.items():
             if record:
-                res.seen_points.setdefault(it.point, set()).update(states)
+                res.seen_points.setdefault(it.point, set()).update({x[0] for x in states} if vt else states)
             nxt = set()
             for s in states:
-                r = step(it, s)
+                us, fx = (s if vt else (s, None))
+                r = step(it, us)
+                if vt:
+                    fx = vt.step(it, fx)
                 if r is None:
-                    nxt.add(s)
+                    nxt.add((us, fx) if vt else us)
                 elif isinstance(r, list):
-                    nxt.update(r)
+                    nxt.update(((x, fx) if vt else x) for x in r)
                 else:
-                    nxt.add(r)
+                    nxt.add((r, fx) if vt else r)
             states = nxt
             if not states:
                 break
@@ -104,31 +112,112 @@ def typestate(body, init, step, edge=None, cut_edges=(), on_cut=None, record=Fal
             continue
         t = blk.term
         if t.kind == "return" or bb in stop_blocks:
-            res.exits.setdefault(bb, set()).update(states)
+            res.exits.setdefault(bb, set()).update({x[0] for x in states} if vt else states)
             for s in states:
-                res.at_exit_entry.setdefault((bb, s), key)
+                res.at_exit_entry.setdefault((bb, s[0] if vt else s), key)
             continue
         for tgt, label in body.edges(bb):
             if body.blocks[tgt].cleanup:
                 continue
             for s in states:
+                us, fx = (s if vt else (s, None))
+                if vt and not vt.feasible(t, label, fx):
+                    continue
                 outs = None
                 if edge is not None:
-                    outs = edge(t, tgt, label, s)
+                    outs = edge(t, tgt, label, us)
                 if outs is None:
-                    outs = [s]
+                    outs = [us]
                 for s2 in outs:
                     if (bb, tgt) in cut_edges and on_cut is not None:
                         conts = on_cut(s2, bb, tgt)
                     else:
                         conts = [s2]
                     for s3 in conts:
-                        k2 = (tgt, s3)
+                        k2 = (tgt, (s3, fx) if vt else s3)
                         if k2 not in seen:
                             seen.add(k2)
                             res.parent[k2] = key
                             work.append(k2)
     return res
+
+
+def _has_splice(body):
+    c = getattr(body, "_has_splice", None)
+    if c is None:
+        c = any(getattr(st, "j", {}).get("inl") for blk in body.blocks if not blk.cleanup for st in blk.stmts)
+        try:
+            body._has_splice = c
+        except AttributeError:
+            pass
+    return c
+
+
+class _VariantFacts:
+    """which variant a Result / Option / ControlFlow local holds, learned from aggregates, moves, `?` (Try::branch / from_residual)"""
+    DISCR = {"Ok": 0, "Err": 1, "None": 0, "Some": 1, "Continue": 0, "Break": 1}
+
+    def __init__(self, body):
+        self.body = body
+
+    def step(self, it, fx):
+        d = dict(fx)
+        if isinstance(it, Stmt):
+            pl = it.place
+            if pl is None or pl.proj:
+                return fx
+            l = pl.local
+            rv = it.rv
+            new = None
+            if rv.kind == "agg" and rv.j.get("ak") == "adt" and rv.j.get("variant") in self.DISCR and rv.j.get("adt", "").split("::")[-1] in ("Result", "Option", "ControlFlow"):
+                new = rv.j["variant"]
+            elif rv.kind == "use" and rv.ops and rv.ops[0].place is not None and rv.ops[0].place.is_local:
+                new = d.get(rv.ops[0].place.local)
+            elif rv.kind == "discr" and rv.place is not None and rv.place.is_local and d.get(rv.place.local) in self.DISCR:
+                new = "=%d" % self.DISCR[d[rv.place.local]]
+            if new is None:
+                if l in d:
+                    del d[l]
+                else:
+                    return fx
+            else:
+                d[l] = new
+            return frozenset(d.items())
+        if isinstance(it, Term) and it.kind == "call" and it.dest is not None and it.dest.is_local:
+            l = it.dest.local
+            r = it.resolved or it.callee or ""
+            new = None
+            if r.endswith(("Try>::branch", "Try::branch")) and it.args and it.args[0].place is not None and it.args[0].place.is_local:
+                v = d.get(it.args[0].place.local)
+                new = {"Ok": "Continue", "Some": "Continue", "Err": "Break", "None": "Break"}.get(v)
+            elif "FromResidual" in r and r.endswith("from_residual"):
+                ty = self.body.local_ty(l) or ""
+                new = "Err" if "Result" in ty.split("<")[0] else ("None" if "Option" in ty.split("<")[0] else None)
+            if new is None:
+                if l in d:
+                    del d[l]
+                else:
+                    return fx
+            else:
+                d[l] = new
+            return frozenset(d.items())
+        return fx
+
+    def feasible(self, term, label, fx):
+        if term.kind != "switch" or not fx:
+            return True
+        op = Operand(term.j["op"]) if "op" in term.j else None
+        if op is None or op.place is None or not op.place.is_local:
+            return True
+        v = dict(fx).get(op.place.local)
+        if not (isinstance(v, str) and v.startswith("=")):
+            return True
+        val = int(v[1:])
+        if label is None:
+            return True
+        if label[0] == "val":
+            return label[1] == val
+        return val not in label[1]
 
 
 # ---------------------------------------------------------------------------------- conditions
